@@ -111,6 +111,11 @@ theorem mapOk_step {s s' : G} {l : Label} (h : MapOk s) (hs : gstep s l = some s
     split at hs
     · cases hs; exact mapOk_bump (mapOk_upd h rfl (by show _ ≤ _ + 1; omega))
     · cases hs; exact mapOk_bump (mapOk_alloc h rfl (by simp [newStoredEntry]))
+  | lspLookup k =>
+    simp only [gstep] at hs
+    split at hs
+    · cases hs; exact mapOk_bump (mapOk_upd h rfl (by show _ ≤ _ + 1; omega))
+    · cases hs; exact mapOk_bump (mapOk_alloc h rfl (by simp [newPlainEntry]))
   | lsRead e v =>
     simp only [gstep] at hs
     split at hs
@@ -130,7 +135,9 @@ theorem mapOk_step {s s' : G} {l : Label} (h : MapOk s) (hs : gstep s l = some s
   | del2 e =>
     simp only [gstep] at hs
     split at hs
-    · split at hs <;> cases hs <;> exact mapOk_upd h rfl (Int.le_refl _)
+    · split at hs
+      · cases hs; exact mapOk_upd h rfl (Int.le_refl _)
+      · split at hs <;> cases hs <;> exact mapOk_upd h rfl (Int.le_refl _)
     · cases hs
   | del3 e =>
     simp only [gstep] at hs
